@@ -322,13 +322,19 @@ FEATURES = {
     "merge-list-elems": _FH + "xs = [1, 2.5, 3]\nys = [True, 2]\nzs = [\"a\", \"b\"]\nws = [[1, 2], [3, 4]]\nmon.write(xs[1])\nmon.write(ys[0])\nmon.write(zs[1])\n",
     "merge-ternary": _FH + "pot = Potentiometer(\"A0\")\nlv = pot.read()\nva = 1 if lv > 5 else 2.5\nvb = \"hi\" if lv > 5 else \"lo\"\nvc = True if lv > 5 else 0\nmon.write(va)\nmon.write(vb)\nmon.write(vc)\n",
     "merge-call-sites": _FH + "def twice(x):\n    return x * 2\ndef mix(a, b):\n    return a + b\nmon.write(twice(3))\nmon.write(twice(1.5))\nmon.write(mix(1, 2))\nmon.write(mix(1.5, 2))\nmon.write(mix(1, 2.5))\nmon.write(mix(twice(2), twice(0.5)))\n",
+    # builtin-only constant expressions in the positions the parser checks for "constness"
+    "feat-builtin-const": _FH + "period = max(200, 250)\nlow, high = min(3, 4), abs(-9)\nled = Led(int(\"13\"))\nflag = bool(1)\nlabel = str(12)\n"
+                          "sleep(abs(-250))\nwhile True:\n    led.toggle()\n    sleep(period)\n    mon.write(len(\"abc\") + low + high)\n",
+    "feat-loop-promotions": _FH + "cnt = 0\nwhile cnt < 3:\n    lo = cnt\n    hi = cnt + 1\n    cnt += 1\nfor gi in range(2):\n    hi2 = gi\n    lo2 = gi + 1\nmon.write(lo + hi + lo2 + hi2)\n",
+    "feat-loop-promotions-rev": _FH + "cnt = 0\nwhile cnt < 3:\n    hi = cnt + 1\n    lo = cnt\n    cnt += 1\nfor gi in range(2):\n    lo2 = gi + 1\n    hi2 = gi\nmon.write(lo + hi + lo2 + hi2)\n",
     "merge-many-devices": _FH + "la = Led(3)\nlb = Led(4)\nlc = Led(5)\nsa = Servo(9)\nsb = Servo(10)\nra = RGBLed(6, 7, 8)\nba = Button(11)\nbb = Button(12)\nbz = Buzzer(2)\nwhile True:\n    la.toggle()\n    lb.on()\n    lc.off()\n    sa.write(10)\n    sb.write(20)\n    ra.set_color(1, 2, 3)\n    bz.beep(440, 5, 5, 2)\n    mon.write(ba.is_pressed())\n    mon.write(bb.is_pressed())\n",
 }
 EXPECT_REJECT = {k for k in FEATURES if k.startswith("rej-")}
 FEATURE_GROUPS = [["feat-swap-loop", "rej-swap-then-break", "feat-swap-for"], ["feat-swap-fn", "rej-swap-fn-then-melody", "feat-swap-many"],
                   ["feat-swap-many", "rej-swap-loop-then-align", "feat-swap-loop"], ["feat-swap-for", "rej-conflict-after-defs", "feat-swap-fn"],
                   ["merge-ret-lists", "merge-ret-num", "rej-ret-str-num"], ["merge-list-elems", "merge-ternary", "merge-call-sites"],
-                  ["merge-many-devices", "merge-ret-lists", "rej-swap-then-break"]]
+                  ["merge-many-devices", "merge-ret-lists", "rej-swap-then-break"],
+                  ["feat-builtin-const", "feat-loop-promotions", "feat-loop-promotions-rev"], ["feat-builtin-const", "merge-ternary", "feat-swap-loop"]]
 
 
 def _twin(src: str, rng: random.Random) -> str | None:
